@@ -23,5 +23,6 @@ PROP = dict(
         H(NH, "c33", "c33_accept_self_stratum1", "focused: source whose own id is a local address and that reports stratum 1 is never used (accepted before fix f6bea43)", timeout=600),
         H(NH, "c33", "c33_adv", "advertised stratum = primary source stratum + 1 (saturating) and reference id = its source id, local stratum / none when no source; "
           "own server id in the advertised filter", timeout=600),
-    ],
+        H("ntp_proto_h", "c33m", "c33_manager_ids", "NtpManager::new: the server id advertised in the daemon's Bloom filter is the id its sources test remote filters against (ServerId::default modelled as 'a different id on every call')", timeout=600),
+],
 )
